@@ -20,7 +20,7 @@ def state_view(st):
     return world.canon({k: st[k] for k in STATE_KEYS})
 
 
-OUTPUT_KEYS = ('exit', 'ocs', 'listing', 'lines', 'diag', 'printed', 'printedDev', 'undef')
+OUTPUT_KEYS = ('exit', 'ocs', 'listing', 'lines', 'diag', 'printed', 'printedDev', 'undef', 'sundef')
 
 
 def op_key(lab):
@@ -183,7 +183,13 @@ def run_group(g, seed, opts=None):
                 an1 = []
                 res['undef'] = True
                 break
-            d = diff_states(st1, al['post'], tex_superset=(g['lab']['cmd'] == 'put')) + out_matches(g['lab']['cmd'], obs, al['lab'])
+            st1c = st1
+            if al['lab'].get('sundef'):
+                # an info without payload was selected: it may be gone or not; nothing else may differ
+                key = lambda x: json.dumps(x, sort_keys=True)
+                if {key(x) for x in st1['strays']} <= {key(x) for x in al['post']['strays']}:
+                    st1c = dict(st1, strays=al['post']['strays'])
+            d = diff_states(st1c, al['post'], tex_superset=(g['lab']['cmd'] == 'put')) + out_matches(g['lab']['cmd'], obs, al['lab'])
             if best is None or len(d) < len(best):
                 best = d
             if not d:
